@@ -111,9 +111,16 @@ impl<Aux> Vm<'_, Aux> {
                 let mut res = self.init_table()?;
                 let table = res.deref_mut().as_table_mut().unwrap();
                 for OwnedEntry { key, value } in o.iter() {
+                    // nothing refers to the new key / value yet: they stay on the stack (rooted)
+                    // while the value is built and while the table may grow
                     let key = self.insert_value(key)?;
+                    self.stack_push(key)?;
                     let value = self.insert_value(value)?;
-                    table.insert(key, value)?;
+                    self.stack_push(value)?;
+                    let inserted = table.insert(key, value);
+                    self.stack_pop();
+                    self.stack_pop();
+                    inserted?;
                 }
                 Value::Object(res.0)
             }
